@@ -40,6 +40,21 @@ CrashClauses(s, e, t, f) ==
             /\ \A b \in Branches(S) \cap Branches(F) : b \in Branches(T))
     >>
 
+(* The user's next step after an interruption is to give the command again.  The interrupted run may have left    *)
+(* unreferenced files behind (a tree whose sub-trees were never written, a branch journal without its branch);     *)
+(* the second run must not trust them blindly: it neither crashes nor leaves a repository that refers to something *)
+(* that is not there.  s is the crash state, t the state after the command was given again.                        *)
+RetryClauses(s, e, t) ==
+    LET S == s.st  T == t.st
+        sound == S.repo /\ T.repo /\ HeadOk(S) /\ Len(S.refsodd) = 0 /\ AllTipsComplete(S) /\ ConnectedReach(S)
+    IN
+    <<
+    Cl("C15_RetryNoCrash", {"C15"}, S.repo, S.repo => e.res \in {"ok", "refused"}),
+    Cl("C15_RetryUsable", {"C15"}, sound,
+        sound => /\ HeadOk(T) /\ Len(T.refsodd) = 0 /\ AllTipsComplete(T) /\ ConnectedReach(T)
+                 /\ \A c \in ROCmds : Res(s, c) \notin {"crash", "hang"} => Res(t, c) \notin {"crash", "hang"})
+    >>
+
 (* a command that reported success under a fault must have produced the fault-free result; *)
 (* commit ids embed the time of the run, so commits are compared by content                *)
 SameCommit(T, a, F, b) ==
